@@ -26,6 +26,8 @@ def run(tier, seed, replay=None):
         cases = [drv.gen(rng, s) for s in drv.DISCRETE + drv.CONT1 + drv.CONT2 for _ in range(per)]
         # the two population solvers once more (small populations and short runs are where set-up bookkeeping shows)
         cases += [drv.gen(rng, s) for s in ("differential_evolution", "particle_swarm") for _ in range(per)]
+        # the solvers whose bookkeeping of "best so far" has the most branches get a double / triple share (their runs are cheap)
+        cases += [drv.gen(rng, s) for s in ("nelder_mead", "nelder_mead", "nelder_mead", "anneal", "tabu_search", "evolve", "lns", "alns") for _ in range(per)]
     res = run_tasks("search", "run_search", cases, timeout=120)
     trs = []
     for r, c in zip(res, cases):
